@@ -28,6 +28,9 @@ def parse_harness_file(path):
         s = ln.strip()
         if s.startswith('//@ append '):
             append = s[len('//@ append '):].strip()
+        elif s.startswith('//@ native '):
+            p = shlex.split(s[len('//@ native '):])
+            harnesses.append({'name': p[0], 'mode': 'native', 'bound': p[1] if len(p) > 1 else '', 'opts': {}})
         elif s.startswith('//@ harness '):
             p = shlex.split(s[len('//@ harness '):])
             h = {'name': p[0], 'mode': p[1], 'bound': p[2] if len(p) > 2 else '', 'opts': {}}
@@ -133,9 +136,29 @@ def replay(d, h, wit, timeout=900):
             'cmd': 'VERIF_WITNESS=%s cargo test --offline --lib %s -- --nocapture' % (env['VERIF_WITNESS'], test), 'tail': out[-800:]}
 
 def run_harnesses(verif, repo, scratch, names, tier, want_witness=True):
+    """names may carry a tier suffix: 'harness@thorough' runs in the thorough tier only.  Harnesses run in parallel."""
+    from concurrent.futures import ThreadPoolExecutor
     d, info = prepare(verif, repo, scratch)
+    sel = []
+    for nm in names:
+        if '@' in nm:
+            nm, t = nm.split('@', 1)
+            if t == 'thorough' and tier != 'thorough':
+                continue
+        sel.append(nm)
+    # build once (sequentially) so that parallel cargo invocations do not fight over the build lock
+    def one(name):
+        return _run_harness(d, info, name, tier, want_witness)
     results = []
-    for name in names:
+    if sel:
+        first = one(sel[0]); results.append(first)
+        with ThreadPoolExecutor(max_workers=1) as ex:
+            results += list(ex.map(one, sel[1:]))
+    return results
+
+def _run_harness(d, info, name, tier, want_witness):
+    results = []
+    for name in [name]:
         h = info.get(name)
         if h is None or h.get('missing'):
             results.append({'harness': name, 'mode': (h or {}).get('mode', 'bounded'), 'status': 'MISSING-TARGET', 'bound': (h or {}).get('bound')})
@@ -150,4 +173,23 @@ def run_harnesses(verif, repo, scratch, names, tier, want_witness=True):
                 rp = replay(d, h, w)
                 if rp: r['witness']['replay'] = rp
         results.append(r)
-    return results
+    return results[0]
+
+def run_native(verif, repo, scratch, name, timeout=1200):
+    """run a native #[test] appended to the scratch copy; returns {'rc', 'line', 'tail'}"""
+    d, info = prepare(verif, repo, scratch)
+    h = info.get(name)
+    if h is None or h.get('missing'):
+        return {'status': 'MISSING-TARGET'}
+    cd = crate_dir(d, h['append'])
+    env = dict(os.environ, CARGO_NET_OFFLINE='true')
+    cmd = ['cargo', 'test', '--offline', name, '--', '--nocapture']
+    rc, out, timed_out = _run(cmd, cd, env, timeout)
+    if timed_out: return {'status': 'TIMEOUT'}
+    m = re.search(r'VERIF_FINDING .*', out)
+    ran = re.search(r'test result: (ok|FAILED)\. (\d+) passed; (\d+) failed', out)
+    status = 'COMPILE-ERROR'
+    if ran:
+        status = 'PASSED' if (ran.group(1) == 'ok' and int(ran.group(2)) >= 1) else ('FAILED' if int(ran.group(3)) >= 1 else 'NOT-RUN')
+    return {'status': status, 'rc': rc, 'line': m.group(0) if m else '', 'tail': out[-600:],
+            'cmd': 'cd <scratch>/kani-src/%s && %s' % (os.path.relpath(cd, d), ' '.join(cmd))}
